@@ -518,6 +518,25 @@ example : (Package.run gate ⟨fns0, ti0⟩
      ⟨id% "f", ⟨[.leaf (.prim (id% "u16"))], rustUnit⟩⟩]) =
     [.incorrectNumberOfArguments 2 1, .incorrectNumberOfArguments 2 1, .ok, .incorrectNumberOfArguments 2 1] := by decide
 
+/-- Across packages too: whatever a process asked before — of this package or
+    of any other, granted or refused, mentioning the same type constructors or
+    not — the answer to a request is the answer it gets from a cold start. (The
+    process-wide `TypeRegistry` is not state of the model; that its entry for a
+    type is the structure of the type, for every instantiation and whatever
+    was resolved first, is `RotoV.C04Reg.registry_describes_the_type`.) -/
+theorem process_history_independent (before after : List (Package × Request)) (pk : Package) (q : Request) :
+    (processRun gate (before ++ (pk, q) :: after))[before.length]? =
+      some (getFunction (gate pk.ti) pk.fns q.name q.f) := by
+  induction before with
+  | nil => simp [processRun, Package.get]
+  | cons b bs ih => simp [processRun, ih]
+
+example : processRun gate
+    [(⟨fns0, ti0⟩, ⟨id% "f", ⟨[.leaf (.prim (id% "u16"))], rustUnit⟩⟩),
+     (⟨fmFns, ti0⟩, ⟨id% "fm", ⟨[.leaf (.prim (id% "u32"))], .verdict (.leaf (.prim (id% "u32"))) rustUnit⟩⟩),
+     (⟨fns0, ti0⟩, ⟨id% "f", ⟨[.leaf (.prim (id% "u16")), .option (.leaf (.prim (id% "i16")))], rustUnit⟩⟩)]
+    = [.incorrectNumberOfArguments 2 1, .ok, .ok] := by decide
+
 /-! ### T7 — the defaults of literal types reach every depth
 
   The signature of a filtermap is inferred, so at retrieval time it can still
